@@ -131,6 +131,8 @@ def default_load(pvl, text, how):
         return (type(e).__name__, e)
 
 
+POISON = ["p =\nq =\nr = (1, 2\n", "\n\n\nx =\n\ny =\nGROUP = g\n z =\nEND_OBJECT\n",
+          "a =\nb = 'unterminated\n", "k =\n\n\n\n\nm = \x01\n"]
 HOWS = ("fresh-parser", "loads(text)", "long-lived-parser", "subclasses", "own-classes")
 
 
@@ -200,6 +202,12 @@ def case(rec, pvl, key, tier):
                      if rec.c["evaluations"] % 3001 == 0 else None)
             how = rng.choice(HOWS)
             rec.count(f"called[{how}]")
+            if rng.random() < 0.3:
+                # the same way of calling the loader first meets a text that has
+                # missing values and then fails for good (nothing of it may
+                # reach the load that is judged)
+                default_load(pvl, rng.choice(POISON), how)
+                rec.count("judged_load_preceded_by_a_failed_one")
             st, res = default_load(pvl, text, how)
             feats = {"dash_continuation_in_text": dash,
                      "equals_sign_in_comment_near_gap": eq_in_gap,
@@ -277,7 +285,7 @@ def finish_kwargs(rec, tier):
            "gap_followed_by[end-keyword]", "gap_followed_by[begin-keyword]",
            "gap_followed_by[END]", "gap_followed_by[end-of-text]"]
     req += [f"strict_checked[{r}]" for r in ("PVL", "ODL", "PDS3")]
-    req += [f"called[{h}]" for h in HOWS]
+    req += [f"called[{h}]" for h in HOWS] + ["judged_load_preceded_by_a_failed_one"]
     return dict(required_counters=req,
                 assumptions=["line number = number of LF characters before the "
                              "'=' plus one (layouts use LF / CRLF line ends "
